@@ -1,2 +1,8 @@
 import Rie.Props.C11
 import Rie.Oracle.Gate
+import Rie.Props.Tables
+import Rie.Props.C16
+import Rie.Props.C17
+import Rie.Props.C19
+import Rie.Oracle.Sys
+import Rie.Props.C20
